@@ -106,6 +106,7 @@ pub struct Interp {
     /// compiler (used only to attribute a difference, never to decide one)
     pub events: std::collections::BTreeSet<&'static str>,
     bind_count: u64,
+    nil_filled: std::collections::HashSet<String>,
 }
 
 /// Per-call context: the enclosing function's parameter and the closure itself (for `^`).
@@ -117,7 +118,7 @@ struct Ctx {
 
 impl Interp {
     pub fn new(max_steps: u64) -> Interp {
-        Interp { aliases: HashMap::new(), steps: 0, max_steps, depth: 0, modules: HashMap::new(), module_cache: HashMap::new(), importing: Vec::new(), events: Default::default(), bind_count: 0 }
+        Interp { aliases: HashMap::new(), steps: 0, max_steps, depth: 0, modules: HashMap::new(), module_cache: HashMap::new(), importing: Vec::new(), events: Default::default(), bind_count: 0, nil_filled: Default::default() }
     }
 
     /// The value of a module: its source evaluated as a program of its own (own aliases).
@@ -189,8 +190,16 @@ impl Interp {
     fn chain(&mut self, ch: &ast::Chain, input: RV, env: &mut Env, ctx: &Ctx) -> R<RV> {
         self.tick()?;
         let mut cur = input;
+        let mut failed_match = false;
         for t in &ch.terms {
             cur = self.term(t, cur, env, ctx)?;
+            if matches!(t, Term::Match(_)) && cur.is_nil() {
+                failed_match = true;
+            } else if failed_match && !cur.is_nil() {
+                // the chain is an infallible pipe: a later term turned the failed match's nil
+                // into a value again, so whatever follows runs with the pattern's binders nil
+                self.events.insert("chain-continues-to-a-value-after-a-failed-match");
+            }
         }
         match &ch.match_pattern {
             None => Ok(cur),
@@ -332,7 +341,13 @@ impl Interp {
     fn access(&mut self, a: &ast::Access, flow: RV, env: &mut Env, ctx: &Ctx, apply: bool) -> R<RV> {
         let base: RV = match &a.source {
             None => flow.clone(),
-            Some(AccessSource::Identifier(n)) => env.get(n).ok_or_else(|| Stop::Stuck(format!("unbound variable {n}")))?,
+            Some(AccessSource::Identifier(n)) => {
+                let v = env.get(n).ok_or_else(|| Stop::Stuck(format!("unbound variable {n}")))?;
+                if v.is_nil() && self.nil_filled.contains(n) {
+                    self.events.insert("binder-of-a-failed-match-is-read");
+                }
+                v
+            }
             Some(AccessSource::Parameter) => ctx.param.clone(),
             Some(AccessSource::Ripple) => flow.clone(),
             Some(AccessSource::Builtin(n)) => RV::Builtin(n.trim_matches('_').to_string()),
@@ -379,6 +394,43 @@ impl Interp {
         Ok(v)
     }
 
+    /// Does the parameter type contain (through aliases, unions and fields) a partial type one
+    /// of whose named fields sits at another position in the argument?
+    fn layout_differs(&self, v: &RV, t: &ast::Type, depth: u32) -> bool {
+        if depth > 8 {
+            return false;
+        }
+        let RV::Tup { fields, .. } = v else { return false };
+        match t {
+            ast::Type::Identifier { name, arguments } if arguments.is_empty() => match self.aliases.get(name) {
+                Some((ps, def)) if ps.is_empty() => self.layout_differs(v, def, depth + 1),
+                _ => false,
+            },
+            ast::Type::Union(u) => u.types.iter().any(|m| self.layout_differs(v, m, depth + 1)),
+            ast::Type::Intersection(ms) => ms.iter().any(|m| self.layout_differs(v, m, depth + 1)),
+            ast::Type::Tuple(tt) => {
+                for (i, f) in tt.fields.iter().enumerate() {
+                    let ast::FieldType::Field { name, type_def } = f else { continue };
+                    let found = match name {
+                        Some(n) => fields.iter().position(|(l, _)| l.as_deref() == Some(n.as_str())),
+                        None => Some(i),
+                    };
+                    let Some(pos) = found else { continue };
+                    if tt.is_partial && pos != i {
+                        return true;
+                    }
+                    if let Some((_, fv)) = fields.get(pos)
+                        && self.layout_differs(fv, type_def, depth + 1)
+                    {
+                        return true;
+                    }
+                }
+                false
+            }
+            _ => false,
+        }
+    }
+
     pub fn call(&mut self, f: &RV, arg: RV) -> R<RV> {
         self.tick()?;
         match f {
@@ -390,17 +442,10 @@ impl Interp {
                     return Err(Stop::Budget);
                 }
                 let arg = if c.nilary { RV::nil() } else { arg };
-                if let Some(ast::Type::Tuple(tt)) = &c.func.parameter_type
-                    && tt.is_partial
-                    && let RV::Tup { fields, .. } = &arg
+                if let Some(pt) = &c.func.parameter_type
+                    && self.layout_differs(&arg, pt, 0)
                 {
-                    for (i, f) in tt.fields.iter().enumerate() {
-                        if let ast::FieldType::Field { name: Some(n), .. } = f
-                            && fields.iter().position(|(l, _)| l.as_deref() == Some(n.as_str())) != Some(i)
-                        {
-                            self.events.insert("partial-typed-parameter-with-other-layout");
-                        }
-                    }
+                    self.events.insert("partial-typed-parameter-with-other-layout");
                 }
                 let ctx = Ctx { param: arg.clone(), this: Some(c.clone()) };
                 let r = match &c.func.body {
@@ -424,12 +469,24 @@ impl Interp {
             }
         }
         let Some(a) = to_arg(&arg) else { return unsupported("builtin argument shape") };
+        // models materialise their results: refuse sizes that would not fit comfortably
+        fn big(a: &Arg, limit: u32) -> bool {
+            match a {
+                Arg::Int(i) => i.bits() > limit as u64,
+                Arg::Bin(b) => b.len() > 1 << 20,
+                Arg::Tuple(v) => v.iter().any(|x| big(x, limit)),
+            }
+        }
+        let sizey = ["repeat", "new", "power", "pow", "shift", "factorial", "random", "pad"].iter().any(|k| name.contains(k));
+        if big(&a, if sizey { 16 } else { 200_000 }) {
+            return unsupported("builtin argument too large for the model");
+        }
         match c12::model(name, &a) {
             Model::Val(M::Int(i)) => Ok(RV::Int(i)),
             Model::Val(M::Bin(b)) => Ok(RV::Bin(b)),
             Model::Val(M::Nil) => Ok(RV::nil()),
             Model::DomainErr => Err(Stop::DomainError(name.to_string())),
-            _ => unsupported("builtin without an exact model"),
+            _ => Err(Stop::Unsupported(format!("builtin without an exact model: {name} on {arg:?}"))),
         }
     }
 
@@ -455,6 +512,7 @@ impl Interp {
             pattern_vars(p, &mut names);
             for n in names {
                 *env = env.with(&n, RV::nil());
+                self.nil_filled.insert(n);
             }
             Ok(false)
         }
